@@ -27,6 +27,14 @@ package pickfirst
 //   R-refresh  (A61 steady state) after a failed pass, every time as many further
 //              connection failures were seen as there are subchannels, TF is
 //              reported again (fresh error for the picker).
+//   R-owned    what the balancer publishes depends only on subchannels it owns
+//              (Shutdown() not called): a connectivity or health update of a
+//              subchannel it already shut down causes no NewSubConn / Connect /
+//              Shutdown / UpdateState, and a picker never returns such a
+//              subchannel.
+//   R-health   (health listener enabled) READY is reported only while the
+//              selected live subchannel is raw READY and its latest health
+//              report is READY; when that holds READY is reported.
 //   R-sticky   once TF was reported for connectivity reasons every later
 //              report is TF until a live subchannel becomes READY (or the
 //              resolver removes every address).
@@ -136,6 +144,7 @@ const (
 	c34LogUpdateState
 	c34LogResolveNow
 	c34LogOther
+	c34LogRegHealth
 )
 
 type c34Entry struct {
@@ -159,6 +168,7 @@ type c34SC struct {
 	connectPending   bool               // Connect() was called while IDLE and CONNECTING not yet delivered
 	shutdown         bool
 	gone             bool // SHUTDOWN was delivered: no further events
+	healthListener   func(balancer.SubConnState) // registered since the last connectivity update
 	// model annotations
 	bornSticky bool
 	stamp      int // pass number the flags below belong to
@@ -183,15 +193,18 @@ func (s *c34SC) Shutdown() {
 	w.mu.Lock()
 	defer w.mu.Unlock()
 	w.log = append(w.log, c34Entry{kind: c34LogShutdown, sc: s})
-	if !s.shutdown {
-		s.shutdown = true
-		w.lastDead = s
-	}
+	// w.lastDead is chosen after the event (pick_first shuts subchannels down
+	// in Go map iteration order; the harness must not depend on it)
+	s.shutdown = true
 }
 
 func (s *c34SC) UpdateAddresses([]resolver.Address) { s.w.other("SubConn.UpdateAddresses") }
-func (s *c34SC) RegisterHealthListener(func(balancer.SubConnState)) {
-	s.w.other("SubConn.RegisterHealthListener")
+func (s *c34SC) RegisterHealthListener(l func(balancer.SubConnState)) {
+	w := s.w
+	w.mu.Lock()
+	defer w.mu.Unlock()
+	s.healthListener = l
+	w.log = append(w.log, c34Entry{kind: c34LogRegHealth, sc: s})
 }
 func (s *c34SC) GetOrBuildProducer(balancer.ProducerBuilder) (balancer.Producer, func()) {
 	s.w.other("SubConn.GetOrBuildProducer")
@@ -265,6 +278,10 @@ type c34World struct {
 	reported bool
 	S        connectivity.State
 	picker   balancer.Picker
+	// health listener mode: latest health report of readySC (valid if healthKnown)
+	health      bool
+	healthKnown bool
+	healthSt    connectivity.State
 	// steady-state TF refresh (0 = rule not armed for this failed phase)
 	refreshN, refreshK int
 	expectRefresh      bool
@@ -454,6 +471,13 @@ func (w *c34World) modelEvent(op *c34Op, target *c34SC, prev connectivity.State)
 		if w.phase == c34Idle {
 			w.startPass() // leaving IDLE starts a new pass at the first address
 		}
+	case c34OpHealth, c34OpDeadHealth:
+		if target.shutdown {
+			return // in-flight health update of a subchannel the balancer already shut down
+		}
+		if w.phase == c34Ready && w.readySC == target {
+			w.healthKnown, w.healthSt = true, op.st
+		}
 	case c34OpSC:
 		if target.shutdown {
 			return // stale update of a subchannel the balancer already shut down
@@ -472,6 +496,7 @@ func (w *c34World) modelEvent(op *c34Op, target *c34SC, prev connectivity.State)
 			}
 		case connectivity.Ready:
 			w.phase, w.readySC, w.sticky = c34Ready, target, false
+			w.healthKnown = false
 		case connectivity.Idle:
 			if prev == connectivity.Ready && w.phase == c34Ready && w.readySC == target {
 				w.phase, w.readySC = c34Idle, nil
@@ -497,6 +522,15 @@ func (w *c34World) stickyClass(op *c34Op, target *c34SC, st connectivity.State) 
 // judge processes the calls recorded during one event, in order.
 func (w *c34World) judge(op *c34Op, target *c34SC, log []c34Entry) {
 	connectsInPass := 0
+	if target != nil && target.shutdown {
+		// R-owned: the event concerns a subchannel the balancer has shut down
+		for _, e := range log {
+			if e.kind == c34LogNewSC || e.kind == c34LogConnect || e.kind == c34LogShutdown || e.kind == c34LogUpdateState {
+				w.failf("dropped-subchannel-had-effect/"+op.kindName(), "event %q concerns subchannel #%d(%s) on which the balancer had already called Shutdown(), yet the balancer reacted with: %s", op.name, target.id, target.name, w.logString(log))
+				break
+			}
+		}
+	}
 	for _, e := range log {
 		switch e.kind {
 		case c34LogNewSC:
@@ -555,6 +589,8 @@ func (w *c34World) judge(op *c34Op, target *c34SC, log []c34Entry) {
 			if st == connectivity.Ready {
 				if w.phase != c34Ready || w.readySC == nil || w.readySC.shutdown || w.readySC.state != connectivity.Ready {
 					w.failf("ready-unsound/reported-ready-without-ready-subchannel", "READY reported in model phase %s; subchannels: %s", c34PhaseName[w.phase], w.scString())
+				} else if w.health && !w.healthy() {
+					w.failf("ready-unsound/reported-ready-while-not-healthy", "READY reported although the latest health report of subchannel #%d(%s) is not READY (%s)", w.readySC.id, w.readySC.name, w.healthString())
 				}
 			}
 			if w.sticky && st != connectivity.TransientFailure {
@@ -589,6 +625,17 @@ func (w *c34World) judge(op *c34Op, target *c34SC, log []c34Entry) {
 			w.failf("tf-refresh/missing-after-all-subchannels-failed-again", "steady-state retry mode with %d subchannels: %d further connection failures were reported but TRANSIENT_FAILURE (with the new error) was not reported again on %q; subchannels: %s", w.refreshN, w.refreshN, op.name, w.scString())
 		}
 	}
+}
+
+func (w *c34World) healthy() bool {
+	return w.healthKnown && w.healthSt == connectivity.Ready
+}
+
+func (w *c34World) healthString() string {
+	if !w.healthKnown {
+		return "no health report yet"
+	}
+	return "health " + w.healthSt.String()
 }
 
 func (w *c34World) scString() string {
@@ -626,12 +673,14 @@ func (w *c34World) checkQuiescent(op *c34Op, preFrontier int, preFresh, preInPas
 	if w.reported && w.S == connectivity.Ready {
 		if w.phase != c34Ready || w.readySC == nil || w.readySC.shutdown || w.readySC.state != connectivity.Ready {
 			w.failf("ready-unsound/reported-ready-without-ready-subchannel", "balancer state is READY in model phase %s; subchannels: %s", c34PhaseName[w.phase], w.scString())
+		} else if w.health && !w.healthy() {
+			w.failf("ready-unsound/reported-ready-while-not-healthy", "balancer state is READY although the latest health report of subchannel #%d(%s) is not READY (%s)", w.readySC.id, w.readySC.name, w.healthString())
 		} else if didPick && (pickErr != nil || picked != balancer.SubConn(w.readySC)) {
 			w.failf("ready-unsound/ready-picker-wrong-result", "READY picker returned (%v, %v), want subchannel #%d", picked, pickErr, w.readySC.id)
 		}
 	}
 	if w.phase == c34Ready {
-		if !w.reported || w.S != connectivity.Ready {
+		if (!w.reported || w.S != connectivity.Ready) && (!w.health || w.healthy()) {
 			w.failf("ready-not-reported", "subchannel #%d(%s) is live and READY but the balancer state is %v", w.readySC.id, w.readySC.name, w.S)
 		}
 		for _, s := range w.scs {
